@@ -130,7 +130,7 @@ Json::Value gen() {
         if (twin) scripts["detectors"]["d1"][t] = "S";
       }
     }
-    for (int k = 0; k < 12; k++) {
+    for (int k = 0; k < 24; k++) {
       Json::Value tick(Json::objectValue);
       tick["adv_ms"] = 5000;
       tick["ops"] = Json::Value(Json::arrayValue);
@@ -152,6 +152,17 @@ struct Group {
 
 struct Validator {
   const World* w;
+  // The walk may span ticks (it is suspended on a prekill hook before every attempt) and another ruleset
+  // may have emptied a cgroup in between: whether a candidate is skipped as unpopulated is decided in the
+  // tick of the attempt before it (the start of the walk for the first).
+  const std::vector<World>* worlds{nullptr};
+  int startTick{0};
+  bool populatedAt(const std::string& c, size_t oi) const {
+    int t = startTick;
+    if (oi > 0 && oi - 1 < obs.size() && !obs[oi - 1].evs.empty()) t = obs[oi - 1].evs.front()->tick;
+    if (worlds && t >= 0 && t < (int)worlds->size()) return (*worlds)[t].populated(c);
+    return w->populated(c);
+  }
   RankInput in;
   bool recursive{false};
   std::vector<Attempt> obs;
@@ -173,8 +184,11 @@ struct Validator {
       if (k[p].eligible) g.remaining.push_back(p);
     return g;
   }
+  // the run ended while the walk was still suspended on a hook: what was observed is a prefix
+  bool truncated{false};
   bool explain(std::vector<Group> stack, size_t oi) {
     if (++steps > 200000) return true; // search budget: inconclusive, never an alarm
+    if (truncated && oi == obs.size()) return true;
     while (!stack.empty() && stack.back().remaining.empty()) stack.pop_back();
     if (stack.empty()) return oi == obs.size();
     Group& g = stack.back();
@@ -194,7 +208,7 @@ struct Validator {
         if (explain(st, oi)) return true;
         continue;
       }
-      bool populated = c.empty() ? true : w->populated(c);
+      bool populated = c.empty() ? true : populatedAt(c, oi);
       if (!populated) {
         if (explain(st, oi)) return true;
         continue;
@@ -304,14 +318,18 @@ Verdict run(const Json::Value& sc) {
     }
   const World& w = R.worlds[killTick];
   val.w = &w;
+  val.worlds = &R.worlds;
+  val.startTick = killTick;
   in.w = &w;
   in.rootCurrent = (w.host.mem("MemTotal") - w.host.mem("MemFree")) * 1024;
   in.temporal = temp;
   const Invocation* inv = nullptr;
   auto invs = segment(R);
   Invocation merged;
+  bool chainWentOn = false;
   for (auto& i : invs) {
     if (i.rs != 0 || i.tick < killTick) continue;
+    if (i.after_ran) chainWentOn = true;
     if (!inv) {
       merged = i;
       inv = &merged;
@@ -325,6 +343,12 @@ Verdict run(const Json::Value& sc) {
     return v;
   }
   val.obs = inv->attempts;
+  // a walk that neither killed anything nor handed over to the next action by the end of the run is
+  // still suspended on its hook (many failing victims, a tick or two each)
+  if (sc["meta"].get("hook", false).asBool() && !chainWentOn && (val.obs.empty() || !val.obs.back().signalled())) {
+    val.truncated = true;
+    v.labels.push_back("walk_cut_by_end_of_run");
+  }
   // the victim is killed as a unit: every process listed in its subtree at the start of the tick is
   // signalled by an attempt that signalled anything (user-space kills; cgroup.kill is the kernel's job)
   if (args.get("kernelkill", "false").asString() != "true") {
